@@ -39,12 +39,27 @@ PLAN = dict(
     pre=[hashlib_vectors],
     rule=("inputs come from oracle/digest_vectors.py (Python hashlib, seeded): every length 0-130 with "
           "random / ASCII / multi-byte UTF-8 / all-zero / all-0xFF contents, 255-257, 4095-4097, 8191-8193, "
-          "65537, and patch texts with '$NetBSD' at line start / middle / end, as the only line, in an "
-          "unterminated last line, twice per line, straddling offset 8192, CRLF, near misses and empty lines. "
+          "2^k-1 / 2^k / 2^k+1 for k = 9..17, 65537, 262145, and patch texts with '$NetBSD' at line start / "
+          "middle / end, as the only line, in an unterminated last line, twice per line, straddling offset "
+          "8192, CRLF, near misses and empty lines. Long-line patch texts (class patch-long; none in the "
+          "Miri/valgrind tier, one 70 KB text in the debug/ASan tier): a single line longer than a boundary "
+          "B with the marker starting 0..7 bytes before line offset B (and before file offset B when short "
+          "lines precede it) for every B = 2^9..2^17, and for 2B, a sample of offsets for B = 1000, 10000, "
+          "100000, 2^18, 2^19, 2^20; per B also the marker late (beyond B, beyond 2B), at the very end, at "
+          "the very start, in the middle, in a long unterminated last line, a near miss across B, lines of "
+          "exactly B-1 / B / B+1 bytes, a marker ending exactly at B, a long plain line followed by short "
+          "marker lines, two long lines in either order, CRLF. Many-line texts (class patch-many): 300 to "
+          "70 000 short lines with marker lines at line numbers 2^k-1 / 2^k / 2^k+1, 1000, 10000 and last. "
           "A case is (input, algorithm, entry point, group): hash_str on the &str; hash_file / hash_patch "
-          "under all read schedules of the harness's own reader (whole, 1-byte, seeded short reads, cuts "
-          "inside every '$NetBSD' at each of the six inner offsets, cuts before/after every LF, std slice "
-          "and std File readers); Interrupted before / between / after the data reads; a hard error after "
+          "under all read schedules of the harness's own reader (whole, 1-byte, seeded short reads, reads "
+          "capped at 2 .. 131072 bytes, reads ending at every multiple of 1000 / 4096 / 8192 / 32768 / "
+          "65536, cuts inside every '$NetBSD' at each of the six inner offsets, cuts before/after every LF, "
+          "std slice and std File readers); Interrupted before / between / after the data reads, before "
+          "every single 1-byte read, and in bursts of N consecutive Interrupted (N from 2, 3, 4, 5, 8, 10, "
+          "16, 20, 32, 50, 63-65, 100, 127-129, 255-257, 500, 1000, 1023-1025, 4095-4097, 5000, 10000, "
+          "32768, 65535-65537, rotating so that every N meets every placement and entry point, plus one "
+          "burst of 1 000 003 on every 61st input) before the first data read, between two data reads and "
+          "before EOF, delivered as bare-kind, OS-error (EINTR) and custom io::Errors; a hard error after "
           "chunk k for every k. Every digest is compared with hashlib's (plain bytes, or bytes filtered by "
           "the statement's rule re-implemented in Python); a hard error must give Err; all 100 ASCII case "
           "variants of the six names must parse and print canonically, 16 non-names must be rejected. "
@@ -61,12 +76,14 @@ PLAN = dict(
     technique=("runtime monitor: differential test of Digest::hash_str / hash_file / hash_patch / from_str / "
                "Display against Python hashlib vectors, through fault-injecting and schedule-controlling "
                "readers; re-executed under debug, ASan, Miri and valgrind in the thorough tier"),
-    level_text=("Exploration: ~520 (quick) / ~5000 (thorough) seeded inputs x 6 algorithms x up to ~20 read "
-                "schedules per entry point, plus Interrupted and hard-error placements, each compared with an "
+    level_text=("Exploration: ~880 (quick) / ~5400 (thorough) seeded inputs x 6 algorithms x up to ~20 read "
+                "schedules per entry point, plus Interrupted (single, alternating, bursts up to 10^6) and "
+                "hard-error placements, each compared with an "
                 "independent hashlib digest; held means held on the executions observed, whose "
                 "algorithm x entry point x schedule-family cells and fault placements are all populated."),
-    level_note="trusts hashlib and the Python re-implementation of the line filter; inputs above 64 KiB and non-ASCII name folding are not explored",
-    not_explored=["inputs longer than 65537 bytes (multi-MiB streams, 2^32-bit length counters)",
+    level_note="trusts hashlib and the Python re-implementation of the line filter; inputs and lines above ~1.1 MiB and non-ASCII name folding are not explored",
+    not_explored=["inputs and single lines longer than ~1.1 MiB (multi-MiB streams, 2^32-bit length counters); marker straddles only at the listed boundaries (2^9..2^20, 2x, 10^3..10^5) - a piece size in between is seen only through the late-marker texts",
+                  "more than 1 000 003 consecutive Interrupted, and more than 300 000 lines in one text",
                   "non-ASCII case folding in Digest::from_str (e.g. U+212A KELVIN SIGN), DESIGN section 4",
                   "alias-like spellings other than 'SHA-1' (e.g. 'RIPEMD160', 'SHA-256'): the statement names six spellings only",
                   "error kinds other than Interrupted / Other (e.g. WouldBlock, UnexpectedEof) and readers that return more bytes than the buffer holds",
